@@ -341,6 +341,8 @@ static int s_connect(ares_socket_t fd, const struct sockaddr *sa, ares_socklen_t
   s->local_variant  = w->src_variant; // the kernel picks the source address when the socket is connected
   s->connect_seq = ++w->seq;
   memcpy(s->ref_fail_at_connect, w->ref_fail, sizeof w->ref_fail);
+  memcpy(s->order_at_connect, w->cfg_order, sizeof w->cfg_order);
+  s->norder_at_connect = w->cfg_norder;
   memcpy(s->last_fail_at_connect, w->ref_last_fail_us, sizeof w->ref_last_fail_us);
   if (take_fault(w, FS_CONNECT)) {
     w->log(fmt("connect(%d,srv%d) -> ECONNREFUSED", fd, s->server));
@@ -557,11 +559,15 @@ void World::record_tx(VSock &s, const Bytes &msg)
   t.seq         = ++seq;
   t.decision_seq = (s.tcp && s.ntx == 0) ? s.connect_seq : t.seq;
   memcpy(t.ref_fail, ref_fail, sizeof ref_fail);
+  memcpy(t.order, cfg_order, sizeof cfg_order);
+  t.norder = cfg_norder;
   memcpy(t.last_fail_us, ref_last_fail_us, sizeof ref_last_fail_us);
   if (s.tcp && s.ntx == 0) {
     // the first frame on a TCP connection reaches the wire only once the connection is established: the server was
     // chosen when the connection was opened
     memcpy(t.ref_fail, s.ref_fail_at_connect, sizeof t.ref_fail);
+    memcpy(t.order, s.order_at_connect, sizeof t.order);
+    t.norder = s.norder_at_connect;
     memcpy(t.last_fail_us, s.last_fail_at_connect, sizeof t.last_fail_us);
   }
   t.ev_index   = in_closure ? -1 : cur_ev;
@@ -739,6 +745,8 @@ bool World::init()
     else csv += fmt("10.0.0.%d:53", 1 + i);
   }
   servers_csv = csv;
+  cfg_norder  = cfg->nservers;
+  for (int i = 0; i < cfg->nservers && i < 8; i++) cfg_order[i] = i;
   in_lib      = true;
   rc          = ares_set_servers_ports_csv(ch, csv.c_str());
   in_lib      = false;
@@ -1345,10 +1353,46 @@ void World::do_setservers(int variant)
     case 4: csv = servers_csv + ",10.0.0.3:53"; break;               // add one
   }
   log(fmt("set_servers(%d,'%s')", variant, csv.c_str()));
+  // reference view of the configured list: retained servers keep their health, removed ones are forgotten. The new
+  // list is in force while the call runs (queries of removed servers are re-sent from inside it).
+  int     old_order[8], old_n = cfg_norder, old_fail[8];
+  int64_t old_last[8];
+  memcpy(old_order, cfg_order, sizeof old_order);
+  memcpy(old_fail, ref_fail, sizeof old_fail);
+  memcpy(old_last, ref_last_fail_us, sizeof old_last);
+  {
+    bool kept[8] = { false };
+    cfg_norder   = 0;
+    size_t pos   = 0;
+    while (pos < csv.size()) {
+      size_t      e    = csv.find(',', pos);
+      std::string item = csv.substr(pos, e == std::string::npos ? std::string::npos : e - pos);
+      int         idx  = -1;
+      if (item.compare(0, 7, "10.0.0.") == 0) idx = atoi(item.c_str() + 7) - 1;
+      else if (item.compare(0, 9, "[fd00::2]") == 0) idx = 1;
+      if (idx >= 0 && idx < 8 && !kept[idx]) {
+        kept[idx]               = true;
+        cfg_order[cfg_norder++] = idx;
+      }
+      if (e == std::string::npos) break;
+      pos = e + 1;
+    }
+    for (int i = 0; i < 8; i++)
+      if (!kept[i]) {
+        ref_fail[i]         = 0;
+        ref_last_fail_us[i] = 0;
+      }
+  }
   in_lib = true;
   int rc = ares_set_servers_ports_csv(ch, csv.c_str());
   in_lib = false;
   log(fmt("set_servers -> %d", rc));
+  if (rc != ARES_SUCCESS) {
+    memcpy(cfg_order, old_order, sizeof old_order);
+    cfg_norder = old_n;
+    memcpy(ref_fail, old_fail, sizeof old_fail);
+    memcpy(ref_last_fail_us, old_last, sizeof old_last);
+  }
   if ((variant != 0 && variant != 2) || (variant == 2 && cfg->nservers == 1)) flush_evs.push_back(cur_ev); // membership changed (0: same list, 2 with >1 servers: pure re-ordering)
   setservers_variant = variant;
 }
